@@ -15,7 +15,7 @@
 //! [`Expr`] is the one type where this ambiguity is new and unavoidable. To address this,
 //! this module provides different functions for different expected behaviors.
 
-use syn::{Expr, Meta};
+use syn::{Expr, ExprLit, Lit, Meta};
 
 use crate::{Error, FromMeta};
 
@@ -36,8 +36,20 @@ pub fn parse_str_literal(meta: &Meta) -> crate::Result<Expr> {
         Meta::Path(_) => Err(Error::unsupported_format("path").with_span(meta)),
         Meta::List(_) => Err(Error::unsupported_format("list").with_span(meta)),
         Meta::NameValue(nv) => {
-            if let Expr::Lit(expr_lit) = &nv.value {
-                Expr::from_value(&expr_lit.lit)
+            // The value may be wrapped in invisible groups; see FromMeta::from_expr
+            let mut value = &nv.value;
+            while let Expr::Group(group) = value {
+                value = &group.expr;
+            }
+
+            // Only a string literal's contents are parsed; any other literal is an
+            // expression in its own right, as it is for `preserve_str_literal`.
+            if let Expr::Lit(ExprLit {
+                lit: lit @ Lit::Str(_),
+                ..
+            }) = value
+            {
+                Expr::from_value(lit)
             } else {
                 Ok(nv.value.clone())
             }
